@@ -188,7 +188,13 @@ def examine(case: dict, ctx) -> Outcome:
             s = Simulator(m, use_jacobian=True, integrator=partial(Scipy, method="Radau"))
             s.simulate(0.1, steps=2)
         except Exception as e:  # noqa: BLE001
-            out.bad(f"simulator-crashes-instead-of-falling-back:{type(e).__name__}", error=repr(e)[:200])
+            try:
+                Simulator(build(spec), integrator=partial(Scipy, method="Radau")).simulate(0.1, steps=2)
+                plain_ok = True
+            except Exception:  # noqa: BLE001
+                plain_ok = False
+            if plain_ok:
+                out.bad(f"simulator-crashes-instead-of-falling-back:{type(e).__name__}", error=repr(e)[:200])
         return out
     if sm is None:
         out.bad(f"conversion-raises:{type(exc).__name__}:{root}:lib={case['lib']}", error=repr(exc)[:200], spec=spec)
@@ -301,7 +307,17 @@ def examine(case: dict, ctx) -> Outcome:
                         s.integrator.jacobian = counted
                     r = s.simulate(horizon, steps=4).get_result().value
             except Exception as e:  # noqa: BLE001
-                out.bad(f"simulate-with-jacobian-crashes:{method}:{type(e).__name__}", error=repr(e)[:200])
+                # numerical trouble inside scipy (non-finite states) also hits the Jacobian-free run of the
+                # same method; only failures that the plain run does not show are attributed to the Jacobian
+                try:
+                    Simulator(build(spec), integrator=partial(Scipy, method=method)).simulate(horizon, steps=4)
+                    plain_ok = True
+                except Exception:  # noqa: BLE001
+                    plain_ok = False
+                if plain_ok or isinstance(e, (TypeError, KeyError, NameError, AttributeError)):
+                    out.bad(f"simulate-with-jacobian-crashes:{method}:{type(e).__name__}", error=repr(e)[:200])
+                else:
+                    out.classes.append(f"method-fails-without-jacobian-too:{method}")
                 continue
             if jac is None:
                 out.classes.append(f"jacobian-fallback:{method}")
@@ -310,7 +326,9 @@ def examine(case: dict, ctx) -> Outcome:
                 out.classes.append(f"jacobian-invoked:{method}")
                 out.nontrivial = gm.structure_key(spec)
             if isinstance(r, Exception):
-                out.bad(f"simulate-with-jacobian-fails:{method}:{type(r).__name__}")
+                # an integration failure is reported as a failure value (allowed); the equations themselves
+                # were already compared pointwise above
+                out.classes.append(f"integration-failure-with-jacobian:{method}")
                 continue
             a, b = r.variables.to_numpy(), ref.variables.to_numpy()
             if a.shape != b.shape or not np.all(np.abs(a - b) <= 1e-5 * (1 + np.abs(b))):
